@@ -287,7 +287,10 @@ def standard(prop, tier, seed, cases, classify, direct=None, known_match=None, e
             "samples": [{"family": c["family"], "source": c["src"], "external_gates": c.get("ext")} for c in run.cases[:: max(1, len(run.cases) // 4)][:4]],
         })
     if extra_cov:
-        cov.update(extra_cov(run) if callable(extra_cov) else extra_cov)
+        try:
+            cov.update(extra_cov(run) if callable(extra_cov) else extra_cov)
+        except Exception as e:            # the correspondence did not run (the model does not build): nothing to describe
+            cov["extra_coverage_unavailable"] = "%s: %s" % (type(e).__name__, e)
     chk.coverage = cov
     chk.assumptions = ["openqasm3 parser/printer", "CPython float arithmetic = IEEE binary64 (PrimFloat)"]
     return chk.finish()
